@@ -450,6 +450,13 @@ class SmallCompiler(FuncCompiler):
                 if f.id == 'len':
                     return self.lift([a], lambda c: '(List.length (Py.Small.distinct %s))' % c[0], NAT)
                 return self.lift([a], lambda c: '(Py.Small.sortedSet %s)' % c[0], a.ty)
+        if isinstance(f, ast.Attribute) and f.attr == 'get' and len(e.args) == 2 and not e.keywords:
+            recv = self.expr(f.value)
+            if self.kind(recv, f.value) == 'dict':
+                td = prune(recv.ty)
+                k = self.coerce(self.to_int(self.expr(e.args[0])), td[1], e)
+                d = self.coerce(self.to_int(self.expr(e.args[1])), td[2], e)
+                return self.lift([recv, k, d], lambda c: '(Py.Small.dictGet %s %s %s)' % (c[0], c[1], c[2]), td[2])
         if isinstance(f, ast.Attribute) and not e.keywords and not (
                 f.attr == 'format' and isinstance(f.value, ast.Constant)):
             if f.attr in ('count', 'split') and len(e.args) == 1:
